@@ -43,4 +43,29 @@ theorem run_eq_spec_of_coherent (wipe : Cache → Bool) (hw : ∀ c, wipe c = tr
     simp only [run, runSpec, hw c, if_true]
     exact run_eq_spec_of_coherent wipe hw rest p _ (coherent_empty p)
 
+theorem run2_eq_spec (wipe : Cache → Bool) (hw : ∀ c, wipe c = true) :
+    ∀ (evs : List Ev2) (s : Stream) (c : Cache) (stk : List (Stream × Cache)),
+      Coherent c s → (∀ e ∈ stk, Coherent e.2 e.1) →
+      run2 wipe s c stk evs = runSpec2 s (stk.map (·.1)) evs
+  | [], _, _, _, _, _ => by simp [run2, runSpec2]
+  | .use i :: rest, s, c, stk, h, hs => by
+    simp only [run2, runSpec2]
+    rw [useId_fst h, run2_eq_spec wipe hw rest s _ stk (useId_coherent h i) hs]
+  | .switch p :: rest, s, c, stk, h, hs => by
+    simp only [run2, runSpec2, hw c, if_true]
+    exact run2_eq_spec wipe hw rest p _ stk (coherent_empty p) hs
+  | .call s' :: rest, s, c, stk, h, hs => by
+    simp only [run2, runSpec2]
+    have := run2_eq_spec wipe hw rest s' Cache.empty ((s, c) :: stk) (coherent_empty s')
+      (by intro e he; cases he with
+          | head => exact h
+          | tail _ h' => exact hs e h')
+    simpa using this
+  | .ret :: rest, s, c, [], h, hs => by
+    simp only [run2, runSpec2, List.map_nil]
+    exact run2_eq_spec wipe hw rest s c [] h hs
+  | .ret :: rest, s, c, (s0, c0) :: stk, h, hs => by
+    simp only [run2, runSpec2, List.map_cons]
+    exact run2_eq_spec wipe hw rest s0 c0 stk (hs (s0, c0) (by simp)) (fun e he => hs e (by simp [he]))
+
 end MJ.BlocksAct
